@@ -1374,6 +1374,13 @@ class C17(Property):
             {"op": "insert", "t": 0, "shape": "dicts", "rows": [[], []]}, {"op": "insert", "t": 0, "shape": "dicts", "rows": [[["a", ["i", 1]]], []]}]})
         # a where on the (broken) view P8 returns: the repeated row numbers make View._try_slice take it for a slice
         cs.append(mk("ab", [[1, 4], [2, 0], [3, 2], [3, 2], [0, 2]], IX(0, "a"), W(0, a={"d": ["in", dict(L(3, 0, 3, 2), **{"as": "tuple"})]}), W(1, b=L(2))))
+        # the witnesses of the `_counterexample` theorems of Props/C17.lean, replayed on the real code
+        exT = [[1, 5], [1, 6], [2, 5], ["M", 7]]
+        cs.append(mk("ab", exT, IX(0, "a"), W(0, a=L(1, 1)), W(0, b={"d": ["!in", L(5)]}), W(0, a={"d": ["<", V(1)]}, b=V(6)),
+                     W(0, a=V("q")), W(0, pos="!in", a=L(None)), W(0, a={"d": [">", V("M")]}), W(0, b=V(6), a={"d": [">=", V(2)]})))
+        cs.append(mk("ab", [[1, 5], [2, "M"]], W(0, b={"d": ["<=", V(5)]})))
+        cs.append(mk("ab", [[2, "x"], [1, "y"], [3, "z"], [1, "w"]], IX(0, "a", "a")))
+        cs.append(mk("ab", [[2, "x"], [1, "y"], [3, "z"], [1, "w"]], IX(0, "a", "b"), {"op": "groupby", "t": 0, "level": 1, "select": "count"}))
         # boundaries: first/last group, probes below/above the range, multi-level index, where-of-where, views as slices and lists
         rows = [[a, b, c] for a in (1, 2, 3) for b in ("x", "y") for c in (0, 1)]
         for o in OPS[:6]:
